@@ -137,7 +137,7 @@ def text_lines(ctx, case):
         if len(lines) == 1:
             l = lines[0]
             kind = 'refused-legal' if isinstance(e, asm.AssemblerError) else 'raw-exception:' + type(e).__name__
-            ctx.violation('%s:%s:text-%s' % (PROP, l['mn'], kind), 'line %r refused: %s' % (l['line'], str(e).splitlines()[-1]),
+            ctx.violation('%s:%s:text-%s' % (PROP, l['mn'], kind), 'line %r refused: %s' % (l['line'], kernel.errline(e)),
                           'text_lines', dict(lines=[l]), expected='accepted', observed=repr(e)[:300])
             return
         for l in lines:
